@@ -531,6 +531,18 @@ fn protocol(rep: &mut Report) {
                 if jr.is_ok() != (!unknown && all) {
                     ctx.fail(&key("protocol/json"), || format!("JSON {js}: {}", if jr.is_ok() { "accepted" } else { "rejected" }));
                 }
+                // ... and through a buffered document (serde_json::Value: keys in sorted order, every entry handed over as a
+                // whole - what untagged enums, flattened records and `from_value` use)
+                if let Ok(val) = serde_json::from_str::<serde_json::Value>(&js) {
+                    let distinct = { let mut n: Vec<&str> = st.iter().map(|k| keys4[*k]).collect(); n.sort(); n.dedup(); n.len() == st.len() };
+                    if distinct {
+                        let vr: Result<D, _> = serde_json::from_value(val);
+                        ctx.t();
+                        if vr.is_ok() != (!unknown && all) {
+                            ctx.fail(&key("protocol/json-value"), || format!("from_value of {js}: {}", if vr.is_ok() { "accepted" } else { "rejected" }));
+                        }
+                    }
+                }
             }
         },
         |st| format!("keys {:?}", st.iter().map(|k| keys4[*k]).collect::<Vec<_>>()),
